@@ -61,6 +61,15 @@ CHECKS.update({
                 text="In the term model nothing but sealed terms and sizes is derivable from a record without the key, for every operation kind. Real histories embedding unique markers in names, renamed names, contents, owners and timestamps are written under {age, pgp} x signature x compression; no marker or STFS keyword may occur on the raw tape in raw, hex or base64 form, key-less parsing of every outer header may show only the stored size and one STFS.EmbeddedHeader record, and rebuilding or fetching with another private key must fail."),
 })
 
+CHECKS.update({
+    "C17": dict(cat="model_checking", design="7/C17", technique="TLA+ transcription Roots.tla of getSanitizedPath / GetRootPath / inventory.Stat / BasePathFs over structured names, evaluated by TLC for every root shape x tree x member x spelling; real archives written by archive/tar (ustar/PAX/GNU x 4 root shapes x name pools) opened through the documented composition",
+                note="archives contain an entry for their top-level directory (as the property states); trusted: archive/tar as the standard tar writer",
+                text="Roots.tla transcribes the seven-way case analysis of path sanitising and the root inference and TLC checks that, for each root shape tar produces, every member is found under the spellings '/d/f', 'd/f' and './d/f', distinct members resolve to distinct rows and the inferred root is the archive's top entry. Generated trees (depth <= 3, long/non-ASCII/wildcard/suffix-like names, sizes 0..33000) are written in three tar formats and four root styles, opened with Initialize + NewCacheFilesystem; every member must be listed exactly once under its directory and read back byte-identical, the three spellings must stat and read the same entry, and entries added through the filesystem must coexist and survive a rebuild."),
+    "C18": dict(cat="model_checking", design="7/C18", technique="TLA+ oracle table Keys.tla (role x format x password class x parse password x pair -> expected outcome) enumerated by TLC; every tuple executed through utility.Keygen, keys.Parse*, Encrypt/Decrypt(String) and Sign/Verify(String) on two freshly generated pairs",
+                note="the model is an oracle table with three consistency properties; assurance comes from execution; key generation randomness is outside the model",
+                text="Keys.tla states when parsing succeeds (only with the generation password) and when use succeeds (only with the other half of the same pair) and TLC prints the 128-tuple table. For each role, format and password class (empty, ASCII, multi-byte, long) two pairs are generated; the private half is parsed with the same, a wrong, the empty and a longer password and used against the public half of its own and of the other pair, for string and stream encryption/decryption and signing/verification; an altered message must not verify."),
+})
+
 NOT_APPLICABLE = {}
 
 PENDING = {}
